@@ -16,7 +16,7 @@ import (
 // C01: Newick write/parse round trip.
 
 var c01Floats = []float64{1, 0, math.Copysign(0, -1), 0.1 + 0.2, 1e-7, 1e21, 5e-324, 1.7976931348623157e308, 123456789.12345679, -2.5, 0.000001, 1e-300}
-var c01TipNames = []string{"1", "1e5", "a b", "é", "-0.5", "TREE", "x/y", "0x1p-2", "Inf", "a'b", "1/2", "1 b", "a 1", "1 2", "'Akepa", "'I'iwi", "O'"}
+var c01TipNames = []string{"1", "1e5", "a b", "é", "-0.5", "TREE", "x/y", "0x1p-2", "Inf", "a'b", "1/2", "1 b", "a 1", "1 2", "'Akepa", "'I'iwi", "O'", "t1"} // ("t1": the default name of the first tip - two tips with one name)
 var c01InnerNames = []string{"n", "in ner", "'q d'", "BEGIN", "é1", "1x", "a/b", "1/x", "x 1", "2009/H1N1"}
 var c01Comments = [][]string{{"c"}, {""}, {"a b"}, {"x;y"}, {"(:,"}, {"&k={a,b}"}, {"c1", "c2"}, {"c1", "c2", "c3"}, {"["}, {" lead"}, {"1.5"}, {"0.99 "}, {" 1"}, {"a 1 ,b"}, {"&hpd=(0.25 , 0.75 )"}, {"1 2"}, {"trail "}, {"  two"}, {"\ttab"}, {"a,  b"}, {"x(\t y"}, {"l1\nl2"}, {"&note:'87 isolate"}, {"x,'y"}, {"'"}}
 
@@ -225,14 +225,7 @@ func init() {
 								ndev++
 							}
 						}
-						// tip names must stay unique
-						seen := map[string]bool{}
-						for _, tp := range m.Tips() {
-							if seen[tp.Name] {
-								return
-							}
-							seen[tp.Name] = true
-						}
+						// (two tips may bear the same name: Newick has no notion of taxon, the round trip is positional)
 						txt := m.Newick()
 						c.Nontrivial(txt)
 						c.States++
